@@ -4,6 +4,7 @@ package main
 import (
 	"context"
 	"encoding/json"
+	"fmt"
 	"math/big"
 	"time"
 
@@ -118,11 +119,19 @@ func runBatch(in In, o *Out) {
 		return
 	}
 	for _, p := range sub.last.Certificate.ImportedBridgeExits {
-		o.BWire = append(o.BWire, hlib.Hex(p.GlobalIndex.Value))
+		var v []byte
+		if p.GlobalIndex != nil {
+			v = p.GlobalIndex.Value
+		}
+		o.BWire = append(o.BWire, hlib.Hex(v))
 	}
 	preq := aggchainproofclient.VerifConvertAggchainProofRequest(req)
 	for _, p := range preq.ImportedBridgeExits {
-		o.BProver = append(o.BProver, hlib.Hex(p.GlobalIndex.Value))
+		var v []byte
+		if p.GlobalIndex != nil {
+			v = p.GlobalIndex.Value
+		}
+		o.BProver = append(o.BProver, hlib.Hex(v))
 	}
 	o.BLER = hlib.Hex(ler.Bytes())
 	o.BPPHash = hlib.Hex(cert.PPHashToSign().Bytes())
@@ -153,7 +162,9 @@ func consumers(m bool, r, l uint32) (wire, commit, gihash, prover []byte, err er
 	if err != nil {
 		return nil, nil, nil, nil, err
 	}
-	wire = p.GlobalIndex.Value
+	if p.GlobalIndex != nil { // a wire message without a global index is observed as an empty value
+		wire = p.GlobalIndex.Value
+	}
 	commit = ibe.GlobalIndexToLittleEndianBytes()
 	gihash = ibe.GlobalIndex.Hash().Bytes()
 	req := &aggsendertypes.AggchainProofRequest{
@@ -162,12 +173,19 @@ func consumers(m bool, r, l uint32) (wire, commit, gihash, prover []byte, err er
 		},
 	}
 	preq := aggchainproofclient.VerifConvertAggchainProofRequest(req)
-	prover = preq.ImportedBridgeExits[0].GlobalIndex.Value
+	if gi := preq.ImportedBridgeExits[0].GlobalIndex; gi != nil {
+		prover = gi.Value
+	}
 	return
 }
 
-func run(in In) Out {
-	o := Out{In: in}
+func run(in In) (o Out) {
+	o = Out{In: in}
+	defer func() {
+		if r := recover(); r != nil { // a consumer that panics on this value: observed as an error, outputs as far as they got
+			o.Err = fmt.Sprint("panic: ", r)
+		}
+	}()
 	switch in.Kind {
 	case "batch":
 		runBatch(in, &o)
